@@ -614,6 +614,64 @@ SrcHolds(g, cn, W, s, pv) ==
 PubVals == [1..NPUB -> GF]
 
 (***************************************************************************)
+(* Bus roles (circuit/src/circuit.rs generate_preprocessed_columns): the   *)
+(* `defined[]` scan that decides, per ALU row, which operand cells send    *)
+(* (create) or receive (read) their witness slot on the WitnessChecks bus, *)
+(* and which are skipped.  Const and Public rows always create `out`.      *)
+(***************************************************************************)
+Privs == Range(privrows)
+
+\* role record of row i: state of a and c (0 skip, 1 reader, 2 creator), creator flags of b, out
+RECURSIVE RolesFold(_, _, _, _)
+RolesFold(os, i, defined, acc) ==
+    IF i > Len(os) THEN [roles |-> acc, defined |-> defined]
+    ELSE LET op == os[i] IN
+    IF op.k \in {"Const", "Public"}
+    THEN RolesFold(os, i + 1, defined \cup {op.out}, Append(acc, [a |-> 0, bc |-> FALSE, c |-> 0, oc |-> TRUE]))
+    ELSE
+      LET outDef == op.out \in defined
+          bDef == op.b \in defined
+          aState == IF op.a \in defined THEN 1
+                    ELSE IF op.a \in Privs /\ ~(~outDef /\ op.a = op.out) THEN 2 ELSE 0
+          cState == IF op.c = None THEN 0
+                    ELSE IF op.c \in defined THEN 1
+                    ELSE IF op.c \in Privs /\ ~(~outDef /\ op.c = op.out) THEN 2 ELSE 0
+          outCre == ~outDef
+          bCre == (~bDef /\ op.b \in Privs) \/ (outDef /\ ~bDef)
+          d2 == defined \cup (IF outCre THEN {op.out} ELSE {}) \cup (IF bCre THEN {op.b} ELSE {})
+                        \cup (IF aState = 2 THEN {op.a} ELSE {}) \cup (IF cState = 2 THEN {op.c} ELSE {})
+      IN RolesFold(os, i + 1, d2, Append(acc, [a |-> aState, bc |-> bCre, c |-> cState, oc |-> outCre]))
+
+BusOf(os) == RolesFold(os, 1, {}, <<>>)
+
+\* number of rows that create / read slot s
+Creators(os, Rl, s) ==
+    Cardinality({ i \in 1..Len(os) : os[i].out = s /\ Rl[i].oc })
+  + Cardinality({ i \in 1..Len(os) : IsAlu(os[i]) /\ os[i].b = s /\ Rl[i].bc })
+  + Cardinality({ i \in 1..Len(os) : IsAlu(os[i]) /\ os[i].a = s /\ Rl[i].a = 2 })
+  + Cardinality({ i \in 1..Len(os) : IsAlu(os[i]) /\ os[i].c = s /\ Rl[i].c = 2 })
+Reads(os, Rl, s) ==
+    Cardinality({ i \in 1..Len(os) : IsAlu(os[i]) /\ os[i].out = s /\ ~Rl[i].oc })
+  + Cardinality({ i \in 1..Len(os) : IsAlu(os[i]) /\ os[i].b = s /\ ~Rl[i].bc })
+  + Cardinality({ i \in 1..Len(os) : IsAlu(os[i]) /\ os[i].a = s /\ Rl[i].a = 1 })
+  + Cardinality({ i \in 1..Len(os) : IsAlu(os[i]) /\ os[i].c = s /\ Rl[i].c = 1 })
+
+UsesC(op) == op.k \in {"MulAdd", "Horner"}
+\* an operand cell the row relation depends on, with no bus interaction, and not tied to a cell
+\* that has one (the BoolCheck row ties a to out inside the row)
+Floating(op, r) ==
+    \/ (r.a = 0 /\ op.k # "Bool")
+    \/ (UsesC(op) /\ r.c = 0)
+
+\* C09 on the model
+BusWellFormed ==
+    LET B == BusOf(ops)  Rl == B.roles IN
+    /\ \A s \in 0..(nslots - 1) : Reads(ops, Rl, s) > 0 => Creators(ops, Rl, s) = 1
+    /\ \A i \in 1..Len(ops) : IsAlu(ops[i]) => ~Floating(ops[i], Rl[i])
+    /\ Privs \subseteq B.defined
+
+
+(***************************************************************************)
 (* Properties (evaluated in stage "done").                                 *)
 (***************************************************************************)
 \* C03: the op list alone implies the source program
